@@ -181,7 +181,7 @@ def gen(rng, tier):
     seqs.append("seq C %s GT" % tok("EW", w))
     seqs.append("seq C %s R %s GT %s" % (tok("SA", a), tok("EW", w), tok("EG", (w[0], w[1], 12.0))))
     seqs.append("seq C %s R R %s GT" % (tok("EG", a), tok("EW", w)))
-    for _ in range(6000 if big else 700):
+    for _ in range(20000 if big else 700):
         seqs.append(gen_seq(rng, 30 if rng.random() < 0.3 else 12))
     return [("op-sequences", seqs)]
 
